@@ -21,7 +21,7 @@ RULE = (
 )
 ASSUMPTIONS = ["g is float-valued (every documented base function is)", "f >= 0 as the property states"]
 TOLERANCES = {"rescaling": "exact (dyadic values)", "percentile count": "exact for p = k/16; for arbitrary p both neighbours of a boundary within 1e-12 relative are accepted"}
-BUDGET = {"quick": dict(examples=2500, shards=1), "thorough": dict(examples=20000, shards=16)}
+BUDGET = {"quick": dict(examples=4000, shards=1), "thorough": dict(examples=40000, shards=16)}
 
 _DY = [0.0, 0.0, 0.125, 0.25, 0.25, 0.5, 0.75, 1.0, 1.5, 2.0, 3.0]
 
